@@ -312,6 +312,72 @@ func ScriptedHistories() [][]int {
 	}
 }
 
+// ---------------------------------------------------------------------------------------------
+// Twin histories: a SECOND proposal decided and finalised in the same blocks as the proposal under test
+// ---------------------------------------------------------------------------------------------
+
+// TPropID sorts BEFORE PropID in the stores' key order: whatever walks the fund records of all proposals meets
+// the twin's records first. (Added after a sub-agent's remark about the unchanged tree: the fund store's walk
+// stops at the first record deleted in the same block.)
+var TPropID = gov.PID("c14-twin")
+
+const twinBase = 2000
+
+func twinEvents() []event {
+	tCreate := op{Name: "twin:create", Kind: opGov, govPayer: 0, govOut: 10, gov: func(w *harness.World, h int64, memo string) *harness.TxSpec {
+		po := gov.PropOpts(w, governance.ProposalTypeGeneral)
+		goal := *po.FundingGoal
+		fd := h + po.FundingDeadline
+		return gov.ProposalCreate(TPropID, governance.ProposalTypeGeneral, "twin", "a second proposal", w.Vals[0].Stake, harness.Coin("OLT", *po.InitialFunding),
+			fd, &goal, fd+po.VotingDeadline, po.PassPercentage, "", memo)
+	}}
+	tFund := op{Name: "twin:fund", Kind: opGov, govPayer: 0, govOut: 90, gov: func(w *harness.World, h int64, memo string) *harness.TxSpec {
+		return gov.ProposalFund(TPropID, w.Vals[0].Stake, oltAmt(90), memo)
+	}}
+	tVote := func(i int) op {
+		return op{Name: fmt.Sprintf("twin:vote(V%d,yes)", i+1), Kind: opGov, govPayer: i, gov: func(w *harness.World, h int64, memo string) *harness.TxSpec {
+			return gov.ProposalVote(TPropID, w.Vals[i].Stake, w.Vals[i].Val, governance.OPIN_POSITIVE, memo)
+		}}
+	}
+	oWdC0 := op{Name: "withdraw(C,0->C)", Kind: opWithdraw, Actor: 2, Amount: 0, Benef: 2}
+	oWdC90 := op{Name: "withdraw(C,90->C)", Kind: opWithdraw, Actor: 2, Amount: 90, Benef: 2}
+	return []event{
+		{Name: "create-general(A)+twin:create+twin:fund", Ops: []op{oCreateG, tCreate, tFund}},                   // 2000
+		{Name: "fund(C,90)", Ops: []op{oFundC}},                                                                  // 2001
+		{Name: "vote(V1,yes)+vote(V2,yes)+twin:votes(V1,V2 yes)", Ops: []op{oV1Yes, oV2Yes, tVote(0), tVote(1)}}, // 2002: both decided in one block
+		{Name: "empty"}, // 2003: the hook finalises both at the end of this block
+		{Name: "withdraw(C,0->C)", Ops: []op{oWdC0}},      // 2004
+		{Name: "withdraw(C,90->C)", Ops: []op{oWdC90}},    // 2005
+		{Name: "user-finalize(C)", Ops: []op{oFinalizeC}}, // 2006
+	}
+}
+
+// TwinHistories: both proposals pass in one block and are finalised by the hook in one block; afterwards (the
+// funding deadline is long past) a funder of the proposal under test sends withdrawals - of nothing, of its
+// whole contribution - and a stranger a finalize: a finalised proposal stays finalised, nothing is refunded.
+func TwinHistories() [][]int {
+	b := twinBase
+	return [][]int{
+		{b + 0, b + 1, b + 2, b + 3, b + 3, b + 4},
+		{b + 0, b + 1, b + 2, b + 3, b + 3, b + 5},
+		{b + 0, b + 1, b + 2, b + 3, b + 4, b + 6},
+		{b + 0, b + 1, b + 2, b + 6, b + 4, b + 5},
+	}
+}
+
+// eventByIndex resolves an event index of any of the three families (alphabet, scripted, twin).
+func eventByIndex(evs []event, i int) (event, bool) {
+	switch se, te := scriptedEvents(), twinEvents(); {
+	case i >= twinBase && i < twinBase+len(te):
+		return te[i-twinBase], true
+	case i >= scriptedBase && i < scriptedBase+len(se):
+		return se[i-scriptedBase], true
+	case i >= 0 && i < len(evs):
+		return evs[i], true
+	}
+	return event{}, false
+}
+
 func eventNames(ev []event) []string {
 	out := make([]string, len(ev))
 	for i, e := range ev {
